@@ -2,5 +2,5 @@
 EXTENDS Filter, Json
 Ids(cat) == [i \in 1..Len(cat) |-> cat[i].u]
 Emit == (Len(hist) = MaxHist) =>
-    PrintT(<<"CASE", ToJson([src |-> src0, hist |-> hist, cur |-> cur, objs |-> [i \in 1..Len(objs) |-> Ids(objs[i])]])>>)
+    PrintT(<<"CASE", ToJson([src |-> src0, hist |-> [i \in 1..Len(hist) |-> [k |-> hist[i].c.k, sts |-> hist[i].c.sts, inplace |-> hist[i].c.inplace, o |-> hist[i].o]], cur |-> cur, objs |-> [i \in 1..Len(objs) |-> Ids(objs[i])]])>>)
 ==================================================================================
